@@ -318,7 +318,15 @@ fn c19(rng: &mut Rng, _idx: usize) -> Case {
     c
 }
 
-fn c10(rng: &mut Rng, _idx: usize) -> Case {
+fn c10(rng: &mut Rng, idx: usize) -> Case {
+    if idx == 0 {
+        // slot indices beyond u16 / i16: more terms than any shipped ontology has
+        let mut c = Case::new("big-arena");
+        c.op(format!("bigarena 70000 {}", rng.next()));
+        c.stat("big_arena_terms", 70000);
+        c.nontrivial = true;
+        return c;
+    }
     let mut c = Case::new("lookups");
     let max_terms = *rng.pick(&[3usize, 10, 40]);
     let wr = rng.chance(1, 2);
